@@ -43,6 +43,25 @@ def conc(seq):
     return b"".join(U[k] for k in seq)
 
 
+BIG = 128 * UNIT   # the 32 KiB units of the file-level cases: head and tail of the small unit around neutral text filler
+
+
+def big_units():
+    fill = (b"filler text 0123456789 abcdefghijklmnopqrstuvwxyz " * (BIG // 40))[: BIG - UNIT]
+    b = {k: U[k][:128] + fill + U[k][128:] for k in "TCRLN"}
+    b["c"] = b["C"].replace(b"\r\n", b"\n")
+    b["r"] = b["R"][:-1]
+    assert all(len(b[k]) == BIG for k in "TCRLN") and b"\r" not in fill and b"\n" not in fill
+    return b
+
+
+BU = big_units()
+
+
+def concb(seq):
+    return b"".join(BU[k] for k in seq)
+
+
 def ref_digest(alg, data):
     alg = alg.lower()
     if alg == "blake3":
@@ -98,7 +117,50 @@ class ServedFile(io.RawIOBase):
         return self.b.tell()
 
 
+def run_big_case(case, tmp):
+    """The file-level entry points on files of up to 128 KiB (units of 32 KiB): whatever way they are asked - with or without
+    a progress callback, with or without the file's stat - they read in blocks of 1 MiB, i.e. these files in ONE read."""
+    from dvc_objects.fs.local import LocalFileSystem
+    from fsspec.callbacks import Callback
+
+    from dvc_data.hashfile.hash import file_md5, fobj_md5, hash_file
+
+    stream, content, fed = case["stream"], case["content"], case["fed"]
+    data, expected, lf = concb(content), concb(fed), concb(norm_tokens(content))
+    if conc(norm_tokens(content)) and lf != data.replace(b"\r\n", b"\n"):
+        raise AssertionError("concretisation of NormChunk disagrees with bytes.replace (32 KiB units)")
+    if content and ref_is_text(data[:512]) != (content[0] in "TCRLcr"):
+        raise AssertionError("unit kinds disagree with the reference text heuristic (32 KiB units)")
+    fs = LocalFileSystem()
+    p, plf = os.path.join(tmp, f"b{case['id']}"), os.path.join(tmp, f"b{case['id']}.lf")
+    for path, b in ((p, data), (plf, lf)):
+        with open(path, "wb") as fh:
+            fh.write(b)
+    algs = ["md5-dos2unix"] if stream == "legacy" else ["md5", "sha256", "blake3"]
+    recs = []
+    for alg in algs:
+        apis = {
+            "file_md5": lambda q: file_md5(q, fs, name=alg),
+            "file_md5(callback)": lambda q: file_md5(q, fs, callback=Callback(), name=alg),
+            "hash_file": lambda q: hash_file(q, fs, alg)[1].value,
+            "hash_file(info)": lambda q: hash_file(q, fs, alg, info=fs.info(q))[1].value,
+            "hash_file(callback)": lambda q: hash_file(q, fs, alg, callback=Callback())[1].value,
+            "fobj_md5": lambda q: fobj_md5(open(q, "rb"), name=alg),  # noqa: SIM115
+        }
+        for api, fn in apis.items():
+            d = fn(p)
+            recs.append({"stream": stream, "content": content, "reads": case["reads"], "fed": fed, "api": api + "@32KiB-units", "alg": alg,
+                         "wu": 1, "model_match": d == ref_digest(alg, expected), "raw_match": d == ref_digest(alg, data),
+                         "norm_match": d == ref_digest(alg, lf), "lf_equal": fn(plf) == d if stream == "legacy" else True,
+                         "out_ok": True, "count_ok": True, "one_read": stream == "legacy", "peek_ok": True})
+    os.unlink(p)
+    os.unlink(plf)
+    return recs
+
+
 def run_case(case, tmp):
+    if case.get("big"):
+        return run_big_case(case, tmp)
     from dvc_objects.fs.local import LocalFileSystem
 
     from dvc_data.hashfile.hash import file_md5, fobj_md5, get_hash_stream, hash_file
@@ -124,7 +186,7 @@ def run_case(case, tmp):
         recs.append({"stream": stream, "content": content, "reads": [list(x) for x in pairs], "fed": fed, "api": api, "alg": alg,
                      "model_match": digest == ref_digest(alg, exp), "raw_match": digest == ref_digest(alg, data),
                      "norm_match": digest == ref_digest(alg, lf), "lf_equal": (lf_digest == digest) if lf_digest is not None else True,
-                     "out_ok": bool(out_ok), "count_ok": bool(count_ok), "one_read": bool(one_read), "peek_ok": True})
+                     "out_ok": bool(out_ok), "count_ok": bool(count_ok), "one_read": bool(one_read), "peek_ok": True, "wu": 2})
 
     for alg in algs:
         # the stream classes, served exactly the modelled reads
@@ -227,6 +289,10 @@ def check(run: core.Run, replay=None):
         short = generate("HashStream_short.cfg")
         short = [c for c in short if any(k < n for n, k in c["reads"])]
         cases += rng.sample(short, min(len(short), 1500 if quick else len(short)))
+        big = generate("HashStream_genfile.cfg")
+        for c in big:
+            c["big"] = True
+        cases += rng.sample(big, min(len(big), 500 if quick else len(big)))
     for i, c in enumerate(cases):
         c["id"] = i
         c["files"] = i % 5 == 0
@@ -243,7 +309,7 @@ def check(run: core.Run, replay=None):
         tag, prop, clause, i, _j, dev = v
         r = recs[i - 1]
         if tag == "VERDICT":
-            run.verdict(prop, clause, dev, {"record": r, "case": {k: r[k] for k in ("stream", "content", "reads", "fed")}})
+            run.verdict(prop, clause, dev, {"record": r, "case": {**{k: r[k] for k in ("stream", "content", "reads", "fed")}, "big": r.get("wu") == 1}})
         elif clause not in seen:
             seen.add(clause)
             run.divergence({"at": clause, "record": r})
@@ -251,7 +317,9 @@ def check(run: core.Run, replay=None):
                               "3000 of them in quick) x every complete sequence of read sizes x both stream kinds, through "
                               "the stream classes, fobj_md5, file_md5 and hash_file for md5 / sha256 / blake3 / MD5 / "
                               "md5-dos2unix; byte-granular read sizes (1..1000, 511/512/513) for plain streams; short reads (the "
-                              "source returns fewer units than requested before the end) for the stream classes and fobj_md5",
+                              "source returns fewer units than requested before the end) for the stream classes and fobj_md5; the file-level "
+                              "entry points (file_md5 / hash_file with and without callback and stat, fobj_md5 default block) on files "
+                              "of <= 4 units of 32 KiB over 5 kinds",
                       "cases": len(cases), "records": len(recs), "validation": stats})
     run.assumptions += ["hashlib / blake3 primitives are the reference (their correctness is trusted)",
                         "units are 256 bytes; for the legacy stream read sizes are whole units (>= 512 bytes as the code asserts)"]
